@@ -278,6 +278,24 @@ def enclosing_with_items(node: ast.AST, pm: dict[int, ast.AST]) -> list[ast.with
     return out
 
 
+def class_lock_fields(cls: Class) -> set[str]:
+    """fields of the class initialised with threading.Lock()/RLock()"""
+    return {k for k, v in init_fields(cls).items() if lock_kind(v) is not None}
+
+
+def lock_section_of(node: ast.AST, pm: dict[int, ast.AST], lock_fields: set[str], self_name: str = "self"):
+    """The outermost `with self.<lock>:` statement whose *body* contains node, or None.
+    Two nodes with the same (non-None) section execute inside one critical section."""
+    found = None
+    child = node
+    for anc in ancestors(node, pm):
+        if isinstance(anc, ast.With) and any(child is st for st in anc.body):
+            if any(with_lock_name(it, self_name) in lock_fields for it in anc.items):
+                found = anc
+        child = anc
+    return found
+
+
 def call_sites(program: Program, name: str, prefixes: tuple[str, ...] | None = None):
     """All calls whose callee's last name component is `name`: yields (Func, Call)."""
     for f in program.iter_funcs(prefixes):
